@@ -16,7 +16,7 @@ import (
 func init() {
 	register("C15",
 		"week-index arithmetic, the contents of GetWeeks, and whether the month-separated week walk visits exactly one (month, week) position per step (after the repair of the shadowed variable the walk still mis-steps for some (first weekday, n); that residue is arithmetic and invisible to these rules).",
-		r15_1, r15_2, r15_3, r15_4, r15_5, r07_1)
+		r15_1, r15_2, r15_3, r15_4, r15_5, r15_6, r15_7, r07_1)
 }
 
 // steppingMethods: methods named Next* whose first non-receiver parameter is an int.
